@@ -3,6 +3,7 @@ package main
 import (
 	"fmt"
 	"go/ast"
+	"go/constant"
 	"go/token"
 	"go/types"
 	"sort"
@@ -23,6 +24,7 @@ func runC10(p *Prog, r *Report) {
 	c10R4(p, r)
 	c10R5(p, r)
 	c10R6(p, r)
+	c10R7(p, r)
 }
 
 func c10R1(p *Prog, r *Report) {
@@ -593,4 +595,69 @@ func c10R6(p *Prog, r *Report) {
 	}
 	r.Count("available_buffer_uses", n)
 	r.Floor(rule, 1)
+}
+
+// c10R7: the bit-set representation only ever grows while a rule is parsed. Every store into the
+// block array inside the adding functions (add, addRange and whatever they call in the package)
+// is an OR-assignment, or the assignment of the all-ones word: a plain assignment of a partial
+// mask erases ports that an earlier item of the same rule put into that block, so "a,b-c" and
+// the range-list representation of the same rule disagree.
+func c10R7(p *Prog, r *Report) {
+	const rule = "C10-R7"
+	r.Rule(rule, "adding to the port bit set is monotone: in PortSet's adding functions every store into the block array is `|=` (any mask) or `=` of the all-ones word; no `&=`, `&^=`, `^=`, shift-assign or plain assignment of a partial mask")
+	pkg := p.Pkg("portset")
+	n := 0
+	p.AllFuncs(pkg, func(fc *FuncCtx) {
+		if fc.Obj == nil || fc.RecvObj() == nil || namedTypeName(fc.RecvObj().Type()) != "PortSet" {
+			return
+		}
+		name := strings.ToLower(fc.Obj.Name())
+		if !strings.HasPrefix(name, "add") {
+			return
+		}
+		info := fc.Info()
+		for _, v := range fc.G.V {
+			var lhs []ast.Expr
+			var rhs []ast.Expr
+			tok := token.ILLEGAL
+			switch x := v.Node.(type) {
+			case *ast.AssignStmt:
+				if v.Kind != VStmt {
+					continue
+				}
+				lhs, rhs, tok = x.Lhs, x.Rhs, x.Tok
+			case *ast.IncDecStmt:
+				lhs, tok = []ast.Expr{x.X}, x.Tok
+			default:
+				continue
+			}
+			for i, l := range lhs {
+				ix, ok := ast.Unparen(l).(*ast.IndexExpr)
+				if !ok {
+					continue
+				}
+				root, path, okp := pathOf(info, ix.X)
+				if !okp || root != fc.RecvObj() || path == "" {
+					continue
+				}
+				n++
+				good := false
+				switch tok {
+				case token.OR_ASSIGN:
+					good = true
+				case token.ASSIGN:
+					if i < len(rhs) {
+						if tv, okc := info.Types[ast.Unparen(rhs[i])]; okc && tv.Value != nil {
+							if u, exact := constant.Uint64Val(constant.ToInt(tv.Value)); exact && (u == ^uint64(0) || u == uint64(^uint32(0))) {
+								good = true
+							}
+						}
+					}
+				}
+				r.Check(good, rule, fmt.Sprintf("%s:store@%s", fc.Name, exprStr(v.Node)), p.posStr(v.Node.Pos()), "monotone store ("+tok.String()+")", "a store into the block array while adding is not monotone ("+exprStr(v.Node)+"): ports added by an earlier item of the same rule are erased, and the bit set disagrees with the range list built from the same text")
+			}
+		}
+	})
+	r.Count("block_stores_in_adding_functions", n)
+	r.Floor(rule, 4)
 }
